@@ -215,8 +215,10 @@ def r2_3(ctx, rc):
         rc.ok({'must_pass': N['restore'].qualname}, key=key)
 
 
-def _isfile_of(ctx, lab, attr_or_param):
-    """Edge label is the F-edge of os.path.isfile(<path>)"""
+def _isfile_of(ctx, lab, attr_or_param, src=None):
+    """Edge label is the F-edge of os.path.isfile(<path>); ``src`` (the
+    supergraph node the edge leaves) lets the path be expressed in the root
+    frame's terms when the test sits in an inlined helper."""
     if not (isinstance(lab, tuple) and len(lab) == 4 and lab[0] == 'F'):
         return False
     a = lab[1]
@@ -224,7 +226,8 @@ def _isfile_of(ctx, lab, attr_or_param):
         return False
     if 'os.path.isfile' not in ctx.prog.resolve_call(a, lab[2]):
         return False
-    e = ctx.H.subst(a.args[0], lab[2], lab[3])
+    e = ctx.H.subst_frames(a.args[0], src) if src is not None else \
+        ctx.H.subst(a.args[0], lab[2], lab[3])
     try:
         return attr_or_param(e, lab[2])
     except TypeError:
@@ -246,10 +249,11 @@ def r2_4(ctx, rc):
 
     def backed_up(x):
         return Q.is_done(x, bq) and x.call.args and _own_filename(
-            ctx.H.subst(x.call.args[0], x.func, x.cn))
+            ctx.H.subst_frames(x.call.args[0], x))
     w = Q.first_unguarded(
         sg, [sg.entry], backed_up, _is_user,
-        edge_ok=lambda a, b, lab: not _isfile_of(ctx, lab, _own_filename))
+        edge_ok=lambda a, b, lab: not _isfile_of(ctx, lab, _own_filename,
+                                                 src=a))
     key = '%s: target moved aside or absent before USER' % F.qualname
     if w:
         rc.violation('overwrite-without-backup | ' + key,
@@ -307,9 +311,10 @@ def _cache_names(ctx, root):
         f = todo.pop()
         for c in prog.calls_in(f):
             for g in prog.resolve_call(c, f):
-                if isinstance(g, Func) and g.cls == root.cls and \
-                        not g.is_public and not g.is_ctor_call and \
-                        g not in fs:
+                if isinstance(g, Func) and (
+                        (g.cls == root.cls and not g.is_public) or
+                        g in ctx.backup_wrappers()) and \
+                        not g.is_ctor_call and g not in fs:
                     fs.append(g)
                     todo.append(g)
     # the written name, traced up to a root parameter
@@ -488,10 +493,12 @@ def _slot_encoding(ctx, rc):
     lp = loops[0]
     t = lp.test
     base = None
+    def cval(e):
+        c = prog.const_value(e, F)
+        return c.value if c is not None else None
     if isinstance(t, ast.Compare) and len(t.ops) == 1 and isinstance(
-            t.ops[0], ast.GtE) and isinstance(
-                t.comparators[0], ast.Constant):
-        base = t.comparators[0].value
+            t.ops[0], ast.GtE) and cval(t.comparators[0]) is not None:
+        base = cval(t.comparators[0])
     problems = []
     if base is None:
         raise AnalysisError('digit loop test of %s is not "ticket >= B"' %
@@ -503,8 +510,7 @@ def _slot_encoding(ctx, rc):
                     isinstance(n.left, ast.Name) and n.left.id in tickets:
                 if mod_i is None:
                     mod_i = i
-                if not (isinstance(n.right, ast.Constant) and
-                        n.right.value == base):
+                if cval(n.right) != base:
                     problems.append('digit taken modulo %s in a loop that '
                                     'runs while ticket >= %s' % (
                                         ast.unparse(n.right), base))
@@ -524,7 +530,7 @@ def _slot_encoding(ctx, rc):
             if q is not None:
                 if div_i is None:
                     div_i = i
-                if not (isinstance(q, ast.Constant) and q.value == base):
+                if cval(q) != base:
                     problems.append('quotient by %s in a loop that runs '
                                     'while ticket >= %s' % (
                                         ast.unparse(q), base))
@@ -825,7 +831,7 @@ def r2_10(ctx, rc):
         ctx.R.builder + opt('._ensure_dirs_case')))
     bq = N['backup'].qualname
     bsites = [x for x in sgb.nodes if Q.is_call(x, bq) and x.call.args and
-              _own_filename(ctx.H.subst(x.call.args[0], x.func, x.cn))]
+              _own_filename(ctx.H.subst_frames(x.call.args[0], x))]
     if not bsites:
         rc.violation('backup-guard | ' + bf.qualname,
                      'the target is never moved aside before it is rebuilt '
